@@ -189,6 +189,8 @@ struct Bus {
 		return emit_msgs(node, {m}, faults, delay_us, tag, false);
 	}
 	void emit_raw(const std::vector<uint8_t> &bytes, uint64_t delay_us, uint64_t byte_gap_us = 0, long split_at = -1, uint64_t split_gap_us = 0, int tag = 0) {
+		if (byte_gap_us) fired["stream:slow-bytes"]++;
+		if (split_at >= 0) fired["stream:split-across-polls"]++;
 		UpFrame f; f.bytes = bytes; f.tag = tag; f.corrupted = true;
 		enqueue(std::move(f), delay_us, byte_gap_us, split_at, split_gap_us);
 	}
